@@ -180,6 +180,17 @@ def remapRow (src dst : List Nat) (row : Vec) : Except Err Vec :=
 def remapRows (src dst : List Nat) (rows : List Vec) : Except Err (List Vec) :=
   rows.mapM (remapRow src dst)
 
+/-- `Reaction.reset_chemicals(chemicals)`: the same reaction expressed over another property package.
+Every coefficient moves to the column of its chemical in the new package (a participating chemical the
+new package lacks raises), and the reactant index is looked up again *by identity*: row `r / n`,
+column of the chemical `src[r % n]` in `dst`. -/
+def Rxn.repackage (src dst : List Nat) (nrows : Nat) (rx : Rxn) : Except Err Rxn := do
+  let n := src.length
+  let rows ← remapRows src dst (chunk n nrows rx.nu)
+  match dst.idxOf? (src.getD (rx.r % n) 0) with
+  | none => .error .undefinedChemical
+  | some j => pure { rx with nu := rows.flatten, r := (rx.r / n) * dst.length + j }
+
 /-! ### reaction objects and `__call__` -/
 
 /-- what a reaction object reacts with -/
